@@ -105,6 +105,15 @@ int World::exec_abuse(const Op &op) {
             ATTEMPT((void) sd.indexOf(4.0, 1.0, RangeMatch::Inclusive));
         } else if (t == DimensionType::DataFrame) {
             DataFrameDimension fd = d.asDataFrameDimension();
+            // every getter with the stored default column (which may itself be out of range), with the first index past the last
+            // column, the one after it, and a far one
+            unsigned ncol = 0; try { DataFrame fr = fd.data(); if (fr) ncol = (unsigned) fr.columns().size(); } catch (const std::exception &) {}
+            ATTEMPT((void) fd.label()); ATTEMPT((void) fd.unit()); ATTEMPT((void) fd.columnDataType());
+            ATTEMPT({ std::vector<double> tk; fd.ticks(tk, boost::optional<unsigned>(), true); }); ATTEMPT({ std::vector<std::string> tk; fd.ticks(tk, boost::optional<unsigned>(), true); });
+            for (unsigned ci : {ncol, ncol + 1}) {
+                ATTEMPT((void) fd.label(boost::optional<unsigned>(ci))); ATTEMPT((void) fd.unit(boost::optional<unsigned>(ci))); ATTEMPT((void) fd.columnDataType(boost::optional<unsigned>(ci)));
+                ATTEMPT({ std::vector<double> tk; fd.ticks(tk, boost::optional<unsigned>(ci), true); });
+            }
             ATTEMPT((void) fd.size()); ATTEMPT((void) fd.label(boost::optional<unsigned>(99))); ATTEMPT((void) fd.unit(boost::optional<unsigned>(99)));
             ATTEMPT((void) fd.columnDataType(boost::optional<unsigned>(99)));
             ATTEMPT({ std::vector<double> tk; fd.ticks(tk, boost::optional<unsigned>(99), true); });
